@@ -168,6 +168,7 @@ int main(void)
 {
 	int errfd = memfd_create("verif_c17_err", 0), saved = dup(2);
 	if (errfd < 0 || saved < 0) return 2;
+	setvbuf(stdout, NULL, _IOLBF, 0);	/* after a sanitizer abort the number of answers names the line that crashed */
 
 	while (fgets(line, sizeof(line), stdin)) {
 		char *save = NULL, *op = strtok_r(line, " \n", &save);
